@@ -157,12 +157,16 @@ func (do *ObjectContainer) CloneFor(other ILocatorCloner) {
 	do.mu.RLock()
 	defer do.mu.RUnlock()
 
-	cloneItemAwareMap(do.dataObjectsByName, &out.dataObjectsByName)
-	cloneItemAwareMap(do.dataObjects, &out.dataObjects)
-	cloneItemAwareMap(do.dataObjectReferencesByName, &out.dataObjectReferencesByName)
-	cloneItemAwareMap(do.dataObjectReferences, &out.dataObjectReferences)
-	cloneItemAwareMap(do.propertiesByName, &out.propertiesByName)
-	cloneItemAwareMap(do.properties, &out.properties)
+	// One item is known by its id, by its name and through the references to it: its copy
+	// has to be one item under all of these as well, otherwise what is stored under the
+	// name is not what is read under the id.
+	copies := map[IItemAware]IItemAware{}
+	cloneAliasedItemAwareMap(do.dataObjectsByName, &out.dataObjectsByName, copies)
+	cloneAliasedItemAwareMap(do.dataObjects, &out.dataObjects, copies)
+	cloneAliasedItemAwareMap(do.dataObjectReferencesByName, &out.dataObjectReferencesByName, copies)
+	cloneAliasedItemAwareMap(do.dataObjectReferences, &out.dataObjectReferences, copies)
+	cloneAliasedItemAwareMap(do.propertiesByName, &out.propertiesByName, copies)
+	cloneAliasedItemAwareMap(do.properties, &out.properties, copies)
 }
 
 type HeaderContainer struct {
@@ -521,6 +525,30 @@ func (f *FlowDataLocator) ApplyTo(target any) error {
 	}
 
 	return json.Unmarshal(data, &target)
+}
+
+// cloneAliasedItemAwareMap is cloneItemAwareMap for maps that share items with other maps:
+// copies holds the copy already made of an item.
+func cloneAliasedItemAwareMap(in map[string]IItemAware, out *map[string]IItemAware, copies map[IItemAware]IItemAware) {
+	for name, item := range in {
+		outItem, ok := (*out)[name]
+		if !ok {
+			if copied, seen := copies[item]; seen {
+				(*out)[name] = copied
+				continue
+			}
+			outItem = NewContainer(nil)
+			(*out)[name] = outItem
+		}
+		if _, seen := copies[item]; !seen {
+			copies[item] = outItem
+		}
+		impl1, ok1 := item.(ILocatorCloner)
+		impl2, ok2 := outItem.(ILocatorCloner)
+		if ok1 && ok2 {
+			impl1.CloneFor(impl2)
+		}
+	}
 }
 
 func cloneItemAwareMap(in map[string]IItemAware, out *map[string]IItemAware) {
